@@ -13,6 +13,7 @@ import copy
 import io
 import random
 import threading
+import typing
 
 import yaml
 
@@ -67,9 +68,11 @@ def make_classes(variant):
                 self.name = name
 
         class K1:
-            def __init__(self, k: K0, n: int = 3) -> None:
+            def __init__(self, k: K0, n: typing.Union[int, str] = 3) -> None:
                 self.k, self.n = k, n
-        docs = {'K0': ['name: n\n', 'a: 1\n', 'name: 5\n'], 'K1': ['k: {name: z}\n', 'k: {name: z}\nn: 4\n', 'k: 1\n']}
+        # (the last two documents fail inside a Union: the message lists the failed alternatives)
+        docs = {'K0': ['name: n\n', 'a: 1\n', 'name: 5\n'],
+                'K1': ['k: {name: z}\n', 'k: {name: z}\nn: 4\n', 'k: 1\n', 'k: {name: z}\nn: [1]\n', 'k: {name: z}\nn: {a: 1.5}\n']}
     elif variant % 4 == 3:
         # a base class SHARED by all functions of this kind (one module-level class object); each function brings its own,
         # same-named subclass of it
@@ -141,7 +144,11 @@ def outcome(f, *a, **kw):
         return ('ok', canon(f(*a, **kw)))
     except Exception as e:      # noqa
         import yatiml
-        return ('err', 'RecognitionError' if isinstance(e, yatiml.RecognitionError) else type(e).__name__)
+        if isinstance(e, yatiml.RecognitionError):
+            # the message too (as a multiset of words: alternatives are listed in set order): it must not carry anything over
+            # from earlier calls
+            return ('err', 'RecognitionError', ' '.join(sorted(str(e).split())))
+        return ('err', type(e).__name__)
 
 
 def canon(v):
@@ -307,6 +314,9 @@ def run_history(rnd, length):
     return h
 
 
+REF_CONFLICTS = []
+
+
 def reference_outcomes():
     """Every call in a history of its own: a fresh function, called once."""
     import gc
@@ -321,7 +331,10 @@ def reference_outcomes():
                 gc.collect()
                 h = History()
                 h.new_load(variant, top)
-                ref[('load', variant % 4, top, d)] = h.call_load(0, docs[top].index(d))
+                o = h.call_load(0, docs[top].index(d))
+                # (variants v and v+4 are the same class model: the same call in two fresh functions)
+                if ref.setdefault(('load', variant % 4, top, d), o) != o:
+                    REF_CONFLICTS.append((('load', variant % 4, top, d), ref[('load', variant % 4, top, d)], o))
         for kind in ('dumps', 'dumps_json', 'dump', 'dump_json'):
             for j in range(5):
                 h = History()
@@ -403,6 +416,21 @@ def tie(ctx, model_ok=True):
             res['failing'].append({'signature': 'user-class-modified', 'what':
                                    f'creating and using load/dumps functions changed the user classes of variant {variant % 4}: '
                                    f'{snap[:300]} -> {class_snapshot(ns.values())[:300]}', 'case': {'variant': variant}})
+    for k, o1, o2 in REF_CONFLICTS[:1]:
+        res['failing'].append({'signature': f'history-dependent:{k[0]}:same-call-later', 'what':
+                               f'{k[0]} call {k[1:]!r} gave {o1!r} in one fresh function and {o2!r} in another fresh function of the same '
+                               'class model later in the same process', 'case': {'ops': [], 'seed': ctx['seed'], 'history': -3}})
+    del REF_CONFLICTS[:]
+    # the same calls, each again in a history of its own, after everything above has happened in this process
+    ref2 = reference_outcomes()
+    del REF_CONFLICTS[:]
+    for k, o in ref.items():
+        if k in ref2 and ref2[k] != o:
+            res['failing'].append({'signature': f'history-dependent:{k[0]}:same-call-later', 'what':
+                                   f'{k[0]} call {k[1:]!r} in a fresh function gave {o!r} at the start of the run and {ref2[k]!r} after '
+                                   'other functions had been created and called in the same process',
+                                   'case': {'ops': [], 'seed': ctx['seed'], 'history': -2}})
+            break
     # concurrent calls from threads
     thr_fail = threaded(rnd, ref, 6 if ctx['tier'] == 'quick' else 16, 60 if ctx['tier'] == 'quick' else 400)
     res['evaluations'] += 1
